@@ -181,6 +181,8 @@ class AM:
             return {"type": "xstate.emit", "params": {"event": {"type": "EM%d" % a[1]}}}
         if k == "slow":
             return "s%d" % a[1]
+        if k == "del":
+            return "d%d_%d" % (a[1], a[2])
         raise ValueError(a)
 
     def trans_json(self, t, gspell=0, cond=False):
@@ -292,6 +294,8 @@ class AM:
             return "AEmit %d" % a[1]
         if k == "slow":
             return "ASlow %d %d" % (a[1], a[2])
+        if k == "del":
+            return "ADel %d %d" % (a[1], a[2])
         raise ValueError(a)
 
     def trans_coq(self, t):
@@ -457,7 +461,7 @@ def add_all_pairs(am: AM, reenter_variants=True):
 
 def random_machine(rng: random.Random, max_nodes=10, max_depth=4, features=None):
     f = dict(history=True, final=True, parallel=True, guards=True, raises=True, always=True, ondone=True,
-             faults=False, forbidden=True, wildcard=True, assign=True, badtarget=False, max_iter=None)
+             faults=False, forbidden=True, wildcard=True, assign=True, badtarget=False, max_iter=None, delete=False)
     f.update(features or {})
     nodes = [Node(0, "m", None, "compound")]
     keys = ("a", "ab", "b", "ba", "abc", "c", "ca", "d")
@@ -545,6 +549,8 @@ def random_machine(rng: random.Random, max_nodes=10, max_depth=4, features=None)
             r = rng.random()
             if r < 0.55:
                 out.append(("mark", next(mark)))
+            elif r < 0.62 and f["delete"]:
+                out.append(("del", next(mark), rng.randint(0, 2)))
             elif r < 0.75 and f["assign"]:
                 out.append(("assign", rng.randint(0, 2), rng.randint(0, 3)))
             elif r < 0.83 and f["raises"]:
